@@ -186,6 +186,63 @@ def computing_shard(args):
     return part.done()
 
 
+def _reregistered_child(country: str):
+    """In a forked child: replace the country's algorithm through the public decorator
+    ``checksum.register`` by a subclass that computes OTHER digits (validate = "computed equals
+    given"), then build IBANs every way the library offers and validate them nationally: computing
+    and validating must still agree, i.e. both follow the algorithm table in force."""
+    import random as _random
+    key = f"{country}:default"
+    old = lib.checksum.algorithms[key]
+    c = reg.countries()[country]
+    sp = c.span("national_checksum_digits")
+    cls_chars = [reg.CLASS_CHARS[k] for k in bases.classes_of(c)[sp[0]:sp[1]]]
+
+    def shifted(digits):
+        return "".join(a[(a.index(ch) + 1) % len(a)] if ch in a else ch for ch, a in zip(digits, cls_chars))
+
+    class Shifted(type(old)):
+        name = "default"
+
+        def compute(self, components):
+            return shifted(super().compute(components))
+
+        def validate(self, components, expected):
+            return self.compute(components) == expected
+    lib.checksum.register(country)(Shifted)
+    body = bases.bban(c, "distinct")
+    comps = {n: c.component(body, n) for n in ("bank_code", "branch_code", "account_code") if c.span(n)}
+    out = []
+    builders = {
+        "generate": lambda: lib.IBAN.generate(country, comps.get("bank_code", ""), comps.get("account_code", ""),
+                                              comps.get("branch_code", "")),
+        "from_components": lambda: lib.IBAN.from_bban(country, lib.BBAN.from_components(country, **comps)),
+        "random": lambda: lib.IBAN.random(country, random=_random.Random(5)),
+        "random-no-registry": lambda: lib.IBAN.random(country, random=_random.Random(6), use_registry=False),
+    }
+    for name, f in builders.items():
+        k, v = lib.outcome(f)
+        if k == "foreign":
+            out.append((name, "foreign-exception-escapes:" + str(v), None))
+        elif k == "ok":
+            ok, obs = validate_nat(v)
+            if not ok:
+                out.append((name, "built-IBAN-fails-national-validation", obs))
+    return out
+
+
+def reregistered_shard(args):
+    _, country, tier = args
+    part = par.Part()
+    part["evals"] += 4
+    part.seen.add(hash(("reregistered", country)))
+    for name, sig, obs in par.in_child(_reregistered_child, country):
+        part.violation(f"{country}:{name}:{sig} [after the country's algorithm was replaced through checksum.register]",
+                       {"kind": "c09rereg", "country": country, "builder": name}, "passes", obs)
+    part.stat("countries_with_replaced_algorithm")
+    return part.done()
+
+
 def rebuild_shard(args):
     _, country, tier = args
     part = par.Part()
@@ -334,10 +391,15 @@ def shard(args):
         return sequence_shard(args)
     if args[0] == "bank":
         return bank_shard(args)
+    if args[0] == "rereg":
+        return reregistered_shard(args)
     return computing_shard(args) if args[0] == "comp" else rebuild_shard(args)
 
 
 def replay(case: dict) -> dict:
+    if case.get("kind") == "c09rereg":
+        hit = [x for x in par.in_child(_reregistered_child, case["country"]) if x[0] == case["builder"]]
+        return {"ok": not hit, "observed": hit[:2]}
     if case["kind"] == "c09seq":
         return {"ok": True, "observed": "sequence case: replayed through its shard"}
     if case["kind"] == "c09gen":
@@ -365,6 +427,7 @@ def main(tier: str) -> int:
     shards += [("rebuild", c, tier) for c in sorted(table) if table[c].positions]
     shards += [("seq", o, tier) for o in ("sorted", "reversed")]
     shards += [("bank", c, tier) for c in comp]
+    shards += [("rereg", c, tier) for c in comp if f"{c}:default" in lib.checksum.algorithms]
     par.run_shards(run, shard, shards)
     run.extra.update({"computing_countries": comp,
                       "countries_with_positions": sum(1 for c in table.values() if c.positions),
